@@ -550,11 +550,11 @@ def check_householder(a4):
     e1 = np.zeros(L)
     e1[0] = 1.0
     h = rt.q_to4(td.householder_matrix(a, e1))
-    if rt.fro(rt.qmm(rt.qH(h), h) - rt.eye4(L)) > 1e-12:
+    if not (rt.fro(rt.qmm(rt.qH(h), h) - rt.eye4(L)) <= 1e-12):
         return {"what": "householder_matrix is not unitary", "err": rt.fro(rt.qmm(rt.qH(h), h) - rt.eye4(L))}
     img = rt.qmm(h, a4.reshape(L, 1, 4))
     na = rt.fro(a4)
-    if rt.fro(img[1:]) > 1e-12 * max(1.0, na) or abs(np.linalg.norm(img[0, 0]) - na) > 1e-12 * max(1.0, na):
+    if not (rt.fro(img[1:]) <= 1e-12 * max(1.0, na) and abs(np.linalg.norm(img[0, 0]) - na) <= 1e-12 * max(1.0, na)):
         return {"what": "householder_matrix does not map a to norm * e1", "image": img[:, 0]}
     return None
 
@@ -589,14 +589,14 @@ def check_hess(A4):
         return {"what": "H != P A P^H", "err": e}
     for i in range(n):
         for j in range(n):
-            if i > j + 1 and np.abs(H4[i, j]).max() > 1e-10 * sc:
+            if i > j + 1 and not (np.abs(H4[i, j]).max() <= 1e-10 * sc):
                 return {"what": "H is not upper Hessenberg", "i": i, "j": j, "value": H4[i, j]}
     if not hb.is_hessenberg(Hm, atol=1e-10 * sc):
         return {"what": "is_hessenberg rejects the result"}
-    if abs(rt.fro(H4) - rt.fro(A4)) > 1e-10 * sc:
+    if not (abs(rt.fro(H4) - rt.fro(A4)) <= 1e-10 * sc):
         return {"what": "Frobenius norm changed"}
     tr = lambda M: M[np.arange(n), np.arange(n), 0].sum()
-    if abs(tr(H4) - tr(A4)) > 1e-10 * sc:
+    if not (abs(tr(H4) - tr(A4)) <= 1e-10 * sc):
         return {"what": "real part of the trace changed"}
     return None
 
@@ -621,7 +621,7 @@ def structured(rng, n, kind):
     if kind == "hessenberg":
         for i in range(n):
             for j in range(n):
-                if i > j + 1:
+                if not (i <= j + 1):
                     A4[i, j] = 0
     elif kind == "triangular":
         for i in range(n):
@@ -690,6 +690,8 @@ def run(tier, seed):
     import os
     if os.environ.get("QV_DEV_SKIP_DEDUCTIVE") != "1":     # development switch only: never set by a registered command
         deductive(rep, tier)
+        from ..frame import no_module_state
+        no_module_state(rep, P, [HB + "hessenbergize", HB + "_embed_householder_submatrix", HB + "check_hessenberg"])
     bounded(rep, tier, seed)
     return rep
 
